@@ -10,8 +10,8 @@ use std::task::{Context, Poll};
 /// FIFO as a fixed array of slots plus explicit head/tail counters (plain fields stay
 /// constants under CBMC's constant propagation; `Vec::len()` / `VecDeque` do not, and every
 /// loop or index depending on them then unrolls to the unwind bound or runs out of memory).
-/// At most 16 messages may pass through one channel in a harness run (checked).
-const FIFO_SLOTS: usize = 16;
+/// At most 4 messages may pass through one channel in a harness run (checked).
+const FIFO_SLOTS: usize = 4;
 
 struct Fifo<T> {
     slots: [Option<T>; FIFO_SLOTS],
@@ -31,7 +31,7 @@ impl<T> Fifo<T> {
         self.tail - self.head
     }
     fn push_back(&mut self, v: T) {
-        assert!(self.tail < FIFO_SLOTS, "tokio-model mpsc: more than 16 messages through one channel");
+        assert!(self.tail < FIFO_SLOTS, "tokio-model mpsc: more than 4 messages through one channel");
         self.slots[self.tail] = Some(v);
         self.tail += 1;
     }
